@@ -1,11 +1,20 @@
 import Uquic.Oracle.Frame
 import Uquic.Model.Stream.Send
 import Uquic.Spec.SendMon
+import Uquic.Model.Stream.FramePool
 
 /-!
 Oracle for the `sstream` driver: a real `SendStream` with a scripted flow controller.
 
-line:  `<op> => <res> ev=<d>,<c>,<x> w=<-|B|R<n>,<err>> wo= no= rq= nf= dfw= rs= fl= qr= sig=`
+line:  `<op> => <res> ev=<d>,<c>,<x> w=<-|B|R<n>,<err>> wo= no= rq= nf= dfw= rs= fl= qr= sig= pb=<tokens|->`
+
+`pb=` (round 5, pool hygiene) is what the driver's sweep of the STREAM frame pool found after the op (sscore/pool.go):
+`e<k>` / `d<j>` = the frame object emitted as frame k / handed to the receive stream as delivery j is back in the
+pool; `again:<l>` = an object that had already been released is in the pool again; `dup:<l>` = an object is in the
+pool twice; `alias:<old>:<new>` = an object was handed out as <new> while <old> still owned it (or after <old> had
+released it). The field is echoed by the model side (object identities are not part of the SendStream model) and
+judged by `poolMonitors`, which replays the tokens as get/put events of `Model.Stream.FramePool` — the monitor is the
+executable form of the hypothesis `Disciplined` of the theorems in Props/C01Pool.
 -/
 
 open Uquic.Oracle Uquic.Model.Stream.Send Uquic.Spec.SendMon
@@ -33,8 +42,12 @@ structure Ghost where
   rErr : Bool := false                      -- the reader was reset (RESET_STREAM delivered / CancelRead)
   rEnded : Bool := false                    -- Read returned EOF or an error
   rPendingN : Option Nat := none
+  nDeliv : Nat := 0                         -- deliveries that went through the frame parser so far (label d<j>)
   deliveredIdx : List Nat := []             -- emission indices handed to the receive stream at least once
   ackedIdx : List Nat := []                 -- emission indices the driver acknowledged
+  -- frame pool (round 5): the pool model driven by the observed hand-outs and releases
+  pool : Uquic.Model.Stream.FramePool.Pool := {}
+  poolIds : List (String × Nat) := []        -- label of a hand-out ↦ its holder in `pool`
 deriving Inhabited
 
 structure St where
@@ -149,6 +162,47 @@ def readMonitors (g : Ghost) (rd : String) (n : Nat) : Ghost × List (String × 
     | _ => pure ()
   return (g, fails)
 
+/-- Pool hygiene, judged on the `pb=` tokens with ghost state from the op lines only. `handedOut` are the labels of
+    the frame objects this op handed to a new owner (`e<k>` for a popped frame, `d<j>` for a delivery); every label
+    is a fresh holder of `FramePool` taking a fresh buffer, every release token is that holder's `put`.
+    * `pool_release_once`      a `put` by a holder that does not hold the buffer (any more): `again:` / `dup:` tokens,
+                               or the same label released twice — the pool model's `Disciplined` fails;
+    * `pool_exclusive`         `alias:` — an object is handed out while somebody else still owns it / after release;
+    * `pool_release_in_flight` `e<k>` is released although frame k is still in flight (neither acknowledged nor lost):
+                               the packer may still serialise it. -/
+def poolMonitors (g : Ghost) (impl : String) (handedOut : List String) : Ghost × List (String × String × String) × List String := Id.run do
+  let mut g := g
+  let mut fails : List (String × String × String) := []
+  let mut tags : List String := []
+  -- hand-outs first (the release of an object handed out by this very op comes after it)
+  for l in handedOut do
+    let h := g.poolIds.length
+    g := { g with pool := (g.pool.step (.get h 0)).1, poolIds := (l, h) :: g.poolIds }
+  let pb := (field impl "pb=").getD "-"
+  if pb != "-" then
+    for t in pb.splitOn "," do
+      if t.startsWith "alias:" then
+        fails := fails ++ [mon "pool_exclusive" s!"a STREAM frame object has two owners or is used after its release ({t})"]
+      else if t.startsWith "again:" || t.startsWith "dup:" then
+        fails := fails ++ [mon "pool_release_once" s!"a STREAM frame object was handed back to the pool twice ({t})"]
+      else
+        tags := tags ++ [if t.startsWith "e" then "pool:release-emitted" else "pool:release-delivered"]
+        match g.poolIds.lookup t with
+        | none => fails := fails ++ [mon "pool_release_once" s!"released frame object {t} was never handed out"]
+        | some h =>
+          match Uquic.Model.Stream.FramePool.bufOf g.pool h with
+          | none => fails := fails ++ [mon "pool_release_once" s!"frame object {t} was handed back to the pool twice"]
+          | some b =>
+            let (p', ok) := g.pool.step (.put h b)
+            if !ok then
+              fails := fails ++ [mon "pool_release_once" s!"frame object {t} was handed back to the pool by someone who does not hold it"]
+            g := { g with pool := p' }
+        if t.startsWith "e" then
+          let k := natOf (t.drop 1).toString
+          if g.outstanding.contains k then
+            fails := fails ++ [mon "pool_release_in_flight" s!"frame {k} was handed back to the pool while it is in flight (neither acknowledged nor lost)"]
+  return (g, fails, tags)
+
 /-- deliver / read / rreset / cancelread: the model side is the abstract contract only (C03 owns the
     reassembly model), so the line is echoed and judged by the monitors. -/
 def stepRecv (st : St) (w : List String) (impl : String) : St × StepOut := Id.run do
@@ -158,6 +212,7 @@ def stepRecv (st : St) (w : List String) (impl : String) : St × StepOut := Id.r
   let mut n := g.rPendingN.getD 0
   let mut tags : List String := []
   let mut fails : List (String × String × String) := []
+  let mut handedOut : List String := []
   match w with
   | ["deliver", i] =>
     let i := natOf i
@@ -172,6 +227,11 @@ def stepRecv (st : St) (w : List String) (impl : String) : St × StepOut := Id.r
         if head != "nil" && !g.rErr then
           fails := fails ++ [mon "deliver_accepted" s!"handleStreamFrame({o}+{d.length}) failed: {head}"]
         g := { g with segs := g.segs ++ [(o, d, f)], deliveredIdx := if g.deliveredIdx.contains i then g.deliveredIdx else i :: g.deliveredIdx }
+        -- the frame parser takes a pool object for 128 bytes of data or more (internal/wire/stream_frame.go)
+        if d.length ≥ Uquic.Gen.Protocol.MinStreamFrameBufferSize.toNat then
+          handedOut := [s!"d{g.nDeliv}"]
+          tags := tags ++ ["deliver:pooled"]
+        if !d.isEmpty || f then g := { g with nDeliv := g.nDeliv + 1 }
     | _, _ => tags := ["deliver:skip"]
   | ["read", k] =>
     if head != "skip" then
@@ -185,6 +245,8 @@ def stepRecv (st : St) (w : List String) (impl : String) : St × StepOut := Id.r
     let (g', f') := readMonitors g rd n
     g := g'; fails := fails ++ f'
     if w.head? == some "deliver" && rd.startsWith "R" then tags := tags ++ ["deliver:wakes-reader"]
+  let (g2, pf, pt) := poolMonitors g impl handedOut
+  g := g2; fails := fails ++ pf; tags := tags ++ pt
   return ({ st with g := g, nops := st.nops + 1 }, { model := impl, tags := tags, fails := fails })
 
 /-- monitors evaluated after every op on the implementation's digest -/
@@ -349,7 +411,7 @@ def step (st : St) (op impl : String) : St × StepOut :=
       | some (n, e) => s!"R{n},{fmtErr e}"
       | none => if s2.pending.isSome then "B" else "-"
     let model := if res == "PANIC" then "PANIC"
-      else s!"{res} ev={ev.hasData},{ev.hasCtrl},{ev.completed} w={wtxt} {digest s2}"
+      else s!"{res} ev={ev.hasData},{ev.hasCtrl},{ev.completed} w={wtxt} {digest s2} pb={(field impl "pb=").getD "-"}"
     -- 3. ghost (from the ops and the implementation's own answers) and monitors
     let mut g := st.g
     let mut fails : List (String × String × String) := []
@@ -424,6 +486,12 @@ def step (st : St) (op impl : String) : St × StepOut :=
       if !(g.closed && coversPrefix g.acked g.written.length && g.ackedFin) then
         fails := fails ++ [mon "completed_only_when_all_acked" s!"onStreamCompleted fired but acked bytes stop at {coveredFrom g.acked 0} of {g.written.length}, fin acked={g.ackedFin}, closed={g.closed}"]
     fails := fails ++ stateMonitors g impl
+    -- frame pool: a popped frame with data is a pool object owned by the packer / ack handler from now on
+    let handedOut := match w, parseImplFrame impl with
+      | ["pop", _, _, _], some (_, d, _) => if d.isEmpty then [] else [s!"e{g.emitted.size - 1}"]
+      | _, _ => []
+    let (g2, pf, pt) := poolMonitors g impl handedOut
+    g := g2; fails := fails ++ pf; tags := tags ++ pt
     return ({ st with m := s2, g := g, nops := st.nops + 1 }, { model := model, tags := tags, fails := fails })
 
 def main : IO Unit := run { init := ({} : St), step := step }
